@@ -310,7 +310,8 @@ func Perform(t *rapid.T, b Beh, msg string) {
 	case BCleanupCleanupErrorf:
 		t.Cleanup(func() { t.Cleanup(func() { t.Errorf("nonfatal in nested cleanup: %s", msg) }) })
 	case BCleanupPass:
-		t.Cleanup(func() {})
+		// harmless, but it asks for the context (a cancelled one at that point): nothing of it may reach the next test case
+		t.Cleanup(func() { _ = t.Context() })
 	case BGoErrorf:
 		var wg sync.WaitGroup
 		wg.Add(1)
